@@ -304,8 +304,8 @@ def q1_square(ctx):
         hi = H.poly(b.resolve(rng[1], at=lp, keep=(nname,)))
         nxt = [c for c in corners.values() if hi == c["idx"]]
         if not prev:
-            ctx.fail("C17-Q1", lsite, f"square target: side loop `{au.src(lp.iter)}` does not start right after a corner",
-                     "the vertex following a corner would keep the default position (0,0) or be placed twice")
+            ctx.fail("C17-Q1", lsite, "square target: a side loop does not start right after a corner",
+                     f"`{au.src(lp.iter)}` starts at index {idx_first!r}: the vertex following a corner would keep the default position (0,0) or be placed twice")
             continue
         pc = prev[0]
         label = f"side after corner ({pc[U]!r},{pc[V]!r})"
@@ -412,8 +412,8 @@ def b1_border(ctx, facts):
         code = ab.boolean(H.conj([(t, p) for t, p, _ in H.path_condition(st, stop=fn)]))
         wit, n = H.compare(ast.BoolOp(op=ast.And(), values=[code, ast.UnaryOp(op=ast.Not(), operand=H.name("custom"))]), "False")
         ctx.check(wit is None, "C17-B1", ctx.site(TUT, fn, st),
-                  f"run: `{B}` is taken from `{au.src(v) if v is not None else '?'}` although the target is not custom",
-                  "circle and square positions are assigned along the border: the k-th position must go to the k-th vertex of the border cycle, "
+                  "run: the border index list is not taken from extract_border_cycle although the target is not custom",
+                  f"`{B}` = `{au.src(v) if v is not None else '?'}`: circle and square positions are assigned along the border: the k-th position must go to the k-th vertex of the border cycle, "
                   "not to the k-th border vertex in index order",
                   note="unsorted border list only for the custom target")
     ctx.check(n_cycle >= 1, "C17-B1", site, "run: border order is never taken from extract_border_cycle(self.mesh)",
